@@ -1189,8 +1189,8 @@ pub fn c03(tier: Tier) -> i32 {
     let env = Env::new();
     let mut acc = Acc::new();
     let (n_ev, n_fx, n_two) = match tier {
-        Tier::Quick => (4, 4, 4),
-        Tier::Thorough => (5, 5, 6),
+        Tier::Quick => (5, 4, 5),
+        Tier::Thorough => (6, 5, 6),
     };
     explore_alpha("C03", &mut ctx, &env, &profiles::events(&["2"]), n_ev, &mut acc);
     explore_alpha("C03", &mut ctx, &env, &profiles::events_fx(), n_fx, &mut acc);
